@@ -319,6 +319,37 @@ def run(index, rep, tier):
         rep.check(ok, "R07.6", fi.qualname, "sibling absorbs the deleted basal edge", fn_where(fi), "collapse_basal_bifurcation merges the deleted edge's length into the kept sibling before collapsing",
                   "collapse_basal_bifurcation no longer merges the deleted basal edge's length into its sibling before collapsing: path lengths across the old root change")
 
+    # ---- R07.9 the midpoint's spanning pair is the maximum over every pair
+    with rep.section("R07.9"):
+        rep.rule("R07.9", "the pair of leaves midpoint rooting spans is the maximum over EVERY pair of mapped taxa: max_pairwise_distance_taxa scans the complete pair set (one loop over _all_distinct_mapped_taxa_pairs without break/early exit, or max() over it), compares the distance of the pair in hand - a search that prunes pairs (furthest-from-furthest sweeps) is exact only for non-negative lengths, and edge lengths may be negative")
+        mp = index.function("dendropy.calculate.phylogeneticdistance.PhylogeneticDistanceMatrix.max_pairwise_distance_taxa")
+        PAIRS = "_all_distinct_mapped_taxa_pairs"
+        loops = [l for l in walk_no_nested(mp.node) if isinstance(l, ast.For) and any(isinstance(x, ast.Attribute) and x.attr == PAIRS for x in ast.walk(l.iter))]
+        maxes = [c for c in calls_in(mp.node) if call_name(c) == "max" and any(isinstance(x, ast.Attribute) and x.attr == PAIRS for a in c.args for x in ast.walk(a))]
+        allfors = [l for l in walk_no_nested(mp.node) if isinstance(l, (ast.For, ast.While))]
+        if maxes and not allfors:
+            rep.ob("R07.9", fn_where(mp), "max_pairwise_distance_taxa: max() over the complete pair set", True)
+        else:
+            ok = len(loops) == 1 and len(allfors) == 1
+            why = "no single scan of the complete pair set (%d loops, %d over %s)" % (len(allfors), len(loops), PAIRS)
+            if ok:
+                l = loops[0]
+                esc = [x for st in l.body for x in ast.walk(st) if isinstance(x, (ast.Break, ast.Return))]
+                if esc:
+                    ok, why = False, "the scan leaves the loop early (line %d)" % esc[0].lineno
+                tn = {x.id for x in ast.walk(l.target) if isinstance(x, ast.Name)}
+                # the distance compared is that of the pair in hand: a subscript of subscript by the loop's own names
+                subs = [x for st in l.body for x in ast.walk(st) if isinstance(x, ast.Subscript) and isinstance(x.value, ast.Subscript)
+                        and {y.id for y in ast.walk(x.slice) if isinstance(y, ast.Name)} | {y.id for y in ast.walk(x.value.slice) if isinstance(y, ast.Name)} == tn]
+                if ok and (len(tn) != 2 or not subs):
+                    ok, why = False, "the distance compared is not that of the pair in hand"
+                # nested call to a helper that searches on its own
+                helpers = [c for st in l.body for c in ast.walk(st) if isinstance(c, ast.Call) and isinstance(c.func, ast.Attribute) and norm(c.func.value) == "self"]
+                if ok and helpers:
+                    ok, why = False, "the scan defers to `%s`" % norm(helpers[0].func)
+            rep.check(ok, "R07.9", mp.qualname, "pruned search for the most distant pair", fn_where(mp), "max_pairwise_distance_taxa scans every pair once",
+                      "PhylogeneticDistanceMatrix.max_pairwise_distance_taxa: %s - reroot_at_midpoint takes the ends of the longest leaf-to-leaf path from here; a search that does not look at every pair is exact only when all edge lengths are non-negative, and with a negative internal edge (neighbour-joining trees) the root is placed half-way along a path that is not the longest" % why)
+
 
 def pm_target(fi, call):
     pm = parent_map(fi.node)
